@@ -444,7 +444,14 @@ func (srv *Server) GetVhosts() map[string]*VirtualHost {
 }
 
 func (srv *Server) GetConnections() map[uint64]*Connection {
-	return srv.connections
+	srv.connLock.Lock()
+	defer srv.connLock.Unlock()
+	// a copy: the admin handlers range over it while connections come and go
+	connections := make(map[uint64]*Connection, len(srv.connections))
+	for id, conn := range srv.connections {
+		connections[id] = conn
+	}
+	return connections
 }
 
 func (srv *Server) GetProtoVersion() string {
